@@ -273,6 +273,13 @@ type Exec struct {
 	crossCheck   bool
 	Fallbacks    int
 	pendingBound int64
+	ivals        map[*smt.Term]ival
+	facts        map[*smt.Term]bool
+	QuickDecided int
+	digestIdx    int
+	digestMod    uint64
+	digestRem    uint64
+	digestPrefix int
 	fs           *fsState
 	guards       []*smt.Term // conditions of the speculated sides being executed
 	rewound      int // index of the next draw to reuse, -1 = not rewound / diverged
@@ -333,6 +340,7 @@ func (ex *Exec) assume(t *smt.Term) {
 		panic(pathEnd{"assume-false", ""})
 	}
 	ex.pc = append(ex.pc, t)
+	ex.learn(t, true)
 	ex.solver.Assert(t)
 	if ex.modelOK {
 		if smt.Eval(t, ex.model, map[*smt.Term]uint64{}) != 1 {
@@ -388,6 +396,10 @@ func (ex *Exec) feasible(t *smt.Term) bool {
 	}
 	if ex.modelOK && smt.Eval(t, ex.model, map[*smt.Term]uint64{}) == 1 {
 		return true
+	}
+	if known, val := ex.quick(t); known {
+		ex.QuickDecided++
+		return val
 	}
 	r, m := ex.check(t, false)
 	switch r {
